@@ -95,3 +95,94 @@ def search_flag_locals(fn, call_term):
                 if pl is not None and pl['l'] == d and pl['pr'] and pl['pr'][0]['k'] == 'field' and str(pl['pr'][0].get('name', pl['pr'][0].get('i'))) == '0':
                     out.add(s3['p']['l'])
     return out
+
+
+def derived_flag_switches(fn, du, flag_locals):
+    """switches that test the search's exact-match flag INDIRECTLY: on the variant of a local that was built as `Some(..)` under the flag and `None` otherwise
+    (`let found = if exists { Some(entry) } else { None }; match (mode, found) { .. }`).  Returns {switch block: {target block: flag value (bool)}}."""
+    cd = fn.control_deps()
+    # 1. locals whose every definition is an aggregate of an enum variant (or a bool constant), each placed under a known edge of a flag switch
+    carrier = {}
+    for l, ds in du.defs.items():
+        if len(ds) < 2 or any(si is None for _, si in ds):
+            continue
+        vals = {}
+        okk = True
+        for (bb, si) in ds:
+            st = fn.blocks[bb]['stmts'][si]
+            if st['p']['pr']:
+                okk = False
+                break
+            rv = st['rv']
+            if rv['k'] == 'agg' and rv.get('ak') == 'adt' and rv.get('vi') is not None:
+                v = rv['vi']
+            else:
+                okk = False
+                break
+            flagv = None
+            for (a, sx) in fn.control_deps_transitive(bb):
+                at = fn.term(a)
+                if at['k'] != 'switch':
+                    continue
+                locs, _ = du.slice_operand(at['discr'])
+                if not (locs & flag_locals):
+                    continue
+                tg = dict((vv, x) for vv, x in at['targets'])
+                if 0 not in tg:
+                    continue
+                e = du.sym(at['discr'])
+                inv = e[0] == 'un' and e[1] == 'Not'
+                on_false = (sx == tg[0])
+                flagv = (not on_false) != inv
+            if flagv is None or (v in vals and vals[v] != flagv):
+                okk = False
+                break
+            vals[v] = flagv
+        if okk and len(set(vals.values())) == 2:
+            carrier[l] = vals
+    if not carrier:
+        return {}
+    out = {}
+
+    def root_local(pl, depth=0):
+        """local behind a place: itself, or the operand of a single-definition tuple / struct aggregate for `t.N`"""
+        if depth > 4:
+            return None
+        pr = [e for e in pl['pr'] if e['k'] != 'deref']
+        if not pr:
+            ds = du.defs.get(pl['l'], [])
+            if pl['l'] in carrier:
+                return pl['l']
+            if len(ds) == 1 and ds[0][1] is not None:
+                rv = fn.blocks[ds[0][0]]['stmts'][ds[0][1]]['rv']
+                if rv['k'] == 'use' and op_place(rv['op']) is not None:
+                    return root_local(op_place(rv['op']), depth + 1)
+            return pl['l']
+        if pr[0]['k'] == 'field':
+            ds = du.defs.get(pl['l'], [])
+            if len(ds) == 1 and ds[0][1] is not None:
+                rv = fn.blocks[ds[0][0]]['stmts'][ds[0][1]]['rv']
+                idx = pr[0].get('i')
+                if rv['k'] == 'agg' and rv.get('ops') is not None and idx is not None and idx < len(rv['ops']):
+                    q = op_place(rv['ops'][idx])
+                    if q is not None:
+                        return root_local({'l': q['l'], 'pr': list(q['pr']) + pr[1:]}, depth + 1)
+        return None
+    for a in fn.reachable_blocks():
+        at = fn.term(a)
+        if at['k'] != 'switch':
+            continue
+        dl = op_local(at['discr'])
+        for st in fn.blocks[a]['stmts']:
+            if st['k'] == 'assign' and st['p']['l'] == dl and st['rv']['k'] == 'discr':
+                r = root_local(st['rv']['p'])
+                if r in carrier:
+                    m = {}
+                    for vv, x in at['targets']:
+                        if vv in carrier[r]:
+                            m[x] = carrier[r][vv]
+                    rest = [fv for vi, fv in carrier[r].items() if vi not in dict(at['targets'])]
+                    if len(set(rest)) == 1:
+                        m[at['otherwise']] = rest[0]
+                    out[a] = m
+    return out
